@@ -370,9 +370,26 @@ static void run_interp_oriented(int64_t idx, const std::vector<int>& d, bool ver
     make(d[6], sc);
     run_single(sc, "interpolation_oriented", idx, verbose);
     if (d[6] == 0) return;
+    // A closed path through only two way-points turns by exactly pi at each of them: left and right
+    // loop are equally valid, so the mirror image is not determined.  Not judged for covariance.
+    if (d[3] && KN[d[4]].size() == 1) { R->count("covariance_skipped_two_knot_cycle"); return; }
     // covariance with orientation 0
     SingleCase base;
     make(0, base);
+    // Does a constrained knot have |angle - chord direction| > pi in either construction?  (METAFONT
+    // reduces that difference to (-pi, pi]; a solver that does not gives a different spline.)
+    auto unreduced = [&](const Spec& sp) {
+        std::vector<Vec2> K = {start};
+        for (auto& q : sp.pts) K.push_back(sp.rel ? start + q : q);
+        int nk = (int)K.size();
+        for (int j = 0; j < nk; j++) {
+            if (!sp.cons[j]) continue;
+            if (sp.cycle || j + 1 < nk) { Vec2 v = K[(j + 1) % nk] - K[j]; if (fabs(sp.angles[j] - atan2(v.y, v.x)) > M_PI) return true; }
+            if (sp.cycle || j > 0) { Vec2 v = K[j] - K[(j + nk - 1) % nk]; if (fabs(atan2(v.y, v.x) - sp.angles[j]) > M_PI) return true; }
+        }
+        return false;
+    };
+    const bool unred = unreduced(sc.spec) || unreduced(base.spec);
     double tol = TOLS[d[0]];
     std::vector<Vec2> A = polyline_of(start, tol, sc.spec), B = polyline_of(start, tol, base.spec);
     int k = d[6] % 8;
@@ -404,7 +421,8 @@ static void run_interp_oriented(int64_t idx, const std::vector<int>& d, bool ver
     LD h = std::max(h1, h2);
     P2 w = h1 >= h2 ? w1 : w2;
     if (h > K_DEV * tol) {
-        R->violation("section.interpolation", "covariance", {{"rotation_deg", jint(45 * k)}, {"mirrored", jbool(mir)}, {"cycle", jbool(sc.spec.cycle)}, {"constraints", jint(d[5])}, {"tol", jstr(TOL_S[d[0]])}, {"ratio", jnum((double)(h / tol))}},
+        R->count(fmt("covariance_violations:constraints=%d,cycle=%d,unreduced=%d", d[5], d[3], (int)unred));
+        R->violation("section.interpolation", unred ? "covariance:unreduced-constraint-angle" : "covariance", {{"rotation_deg", jint(45 * k)}, {"mirrored", jbool(mir)}, {"cycle", jbool(sc.spec.cycle)}, {"constraints", jint(d[5])}, {"unreduced_constraint_angle", jbool(unred)}, {"tol", jstr(TOL_S[d[0]])}, {"ratio", jnum((double)(h / tol))}},
                      jobj({{"start", "[" + jnum(start.x) + "," + jnum(start.y) + "]"}, {"tolerance", jnum(tol)}, {"section", sc.spec.json()}, {"untransformed_section", base.spec.json()}}),
                      fmt("polyline of the way-points rotated by %d deg%s (%zu vertices) is %.6Lg = %.2Lf x tolerance away from the equally transformed polyline of the original way-points (%zu vertices), at (%.9Lg, %.9Lg)", 45 * k, mir ? " and mirrored" : "", A.size(), h, h / tol, B.size(), w.x, w.y),
                      "sub=interpolation_oriented idx=" + std::to_string(idx));
